@@ -156,7 +156,7 @@ func genAudFields(rt *rapid.T, typ string, ses string, pid string) audFields {
 	} else {
 		f.Result = pick(rt, "res", []string{"success", "success", "failed", "1", "0"})
 	}
-	f.Acct = pick(rt, "acct", []string{"someuser", "root", "ops", "svc-x"})
+	f.Acct = pick(rt, "acct", []string{"someuser", "root", "ops", "svc-x", "dev#007"})
 	f.Host = pick(rt, "host", []string{"127.0.0.1", "10.1.2.3", "?", "fe80::1"})
 	f.Exe = pick(rt, "exe", []string{"/usr/sbin/sshd", "/usr/bin/ls", "/usr/bin/cat", "/bin/bash", "/usr/bin/sudo"})
 	f.UID = pick(rt, "uid", []string{"0", "1000", "4294967295", "65534"})
@@ -167,14 +167,17 @@ func genAudFields(rt *rapid.T, typ string, ses string, pid string) audFields {
 		if typ == "USER_CMD" || rapid.IntRange(0, 3).Draw(rt, "execve") > 0 {
 			n := rapid.IntRange(1, 5).Draw(rt, "argc")
 			for i := 0; i < n; i++ {
-				f.Args = append(f.Args, pick(rt, "arg", []string{"ls", "-l", "/tmp/a b", "cat", "/etc/shadow", "--color=auto", "x\"y", "é", "-"}))
+				f.Args = append(f.Args, pick(rt, "arg", []string{"ls", "-l", "/tmp/a b", "cat", "/etc/shadow", "--color=auto", "x\"y", "é", "-", "fix#123.sh", "issue#101.patch", "a#012b"}))
 			}
+		}
+		if len(f.Args) > 0 && typ != "USER_CMD" && rapid.IntRange(0, 7).Draw(rt, "longarg") == 5 {
+			f.Args = append(f.Args, strings.Repeat("s", rapid.SampledFrom([]int{256, 257, 300, 1024, 4000}).Draw(rt, "arglen")))
 		}
 		if rapid.Bool().Draw(rt, "cwd") || typ == "USER_CMD" {
 			f.Cwd = pick(rt, "cwdv", []string{"/", "/root", "/home/some user"})
 		}
 		for i := rapid.IntRange(0, 3).Draw(rt, "npaths"); i > 0; i-- {
-			f.Paths = append(f.Paths, pick(rt, "path", []string{"/usr/bin/ls", "/lib64/ld-linux-x86-64.so.2", "/etc/shadow", "/tmp/a b"}))
+			f.Paths = append(f.Paths, pick(rt, "path", []string{"/usr/bin/ls", "/lib64/ld-linux-x86-64.so.2", "/etc/shadow", "/tmp/a b", "/src/issue#101.patch"}))
 		}
 	}
 	return f
